@@ -244,7 +244,8 @@ class ProblemParser:
             self.parse_state_component(expression)
 
     def _validate_goal_fluents_arity(self, expression: Union[str, List]) -> None:
-        """Validate that the numeric fluents in a numeric goal condition have the declared number of arguments.
+        """Validate that the numeric fluents in a numeric goal condition have the declared number of arguments and
+        that those of their arguments that are declared objects or constants have a conforming type.
 
         :param expression: the AST of the numeric goal condition (or of one of its operands).
         """
@@ -259,6 +260,18 @@ class ProblemParser:
                         f"Received fluent - {expression[0]} with wrong number of parameters! "
                         f"Expected - {len(lifted_function.signature)} and received - {len(expression) - 1}"
                     )
+
+                possible_objects = {**self.problem.objects, **self.domain.constants}
+                for object_name, lifted_signature_type in zip(
+                    expression[1:], lifted_function.signature.values()
+                ):
+                    if object_name in possible_objects and not possible_objects[
+                        object_name
+                    ].type.is_sub_type(lifted_signature_type):
+                        raise ValueError(
+                            f"The object {object_name} in the goal fluent {expression} "
+                            f"is not of type {lifted_signature_type.name}!"
+                        )
 
             return
 
